@@ -24,7 +24,7 @@ func init() {
 			"(f) the panicking converters util.SlotToInt64/EpochToInt64 receive only duty/request/clock values, never a value read from a beacon-node response; (g) optional configuration values are dereferenced only after a test of the same field (C10.a); " +
 			"(h) math/rand.Intn-style calls receive an argument known to be positive. " +
 			"Input-space assumption: go-eth2-client v0.21.11 and go-builder-client v0.5.1 decoders reject missing source/target, block message/body and default missing numeric values to 0 (read, not analysed). " +
-			"Added with the third seeding round: (k) what is wrapped into the ExecutionConfigurator interface is an object or a nil-tested pointer; (l) an insert into outer[k][...] is preceded on every path by the creation of outer[k] or a presence test on a map filled together with it. Added with the fourth seeding round: (m) results of program functions that can be nil without an error are nil-tested; (n) indices taken from JSON-decoded locals are range-tested; (o) bids remembered between rounds are verified ones (shared with C09.a). NOT decided: arithmetic faults (division by a zero spec value, huge allocations), value-dependent index-out-of-range, panics inside libraries.",
+			"Added with the third seeding round: (k) what is wrapped into the ExecutionConfigurator interface is an object or a nil-tested pointer; (l) an insert into outer[k][...] is preceded on every path by the creation of outer[k] or a presence test on a map filled together with it. Added with the fourth seeding round: (m) results of program functions that can be nil without an error are nil-tested; (n) indices taken from JSON-decoded locals are range-tested; (o) bids remembered between rounds are verified ones (shared with C09.a). Added with the fifth seeding round: (q) a byte collection is addressed with a position only behind a test against the length of that same collection. NOT decided: arithmetic faults (division by a zero spec value, huge allocations), value-dependent index-out-of-range, panics inside libraries.",
 		Technique:   "crash-shape rules over SSA of every production function: error-edge path queries (use-after-failed-call), maybe-nil phi analysis, per-leaf length provenance of slice-to-array conversions, nil-guard queries on decoded pointer collections with unmarshaler validation summaries, registration/assertion table agreement, argument provenance of panicking helpers",
 		Rule:        "one obligation per crash-shaped site found (a-d,f,h), per type assertion on event data (e); the sweep covers every production function",
 		Assumptions: []string{"decoder contracts of go-eth2-client v0.21.11 / go-builder-client v0.5.1 as read (non-nil Data on nil error; non-nil Source/Target/Message/Body)"},
@@ -503,6 +503,72 @@ func runC16(p *core.Prog, r *core.Report, tier string) {
 	// ---- (o) the bids a relay's worker remembers between rounds are verified ones (the range report divides by the
 	// first remembered bid's value, which verification guarantees to be non-zero): shared with C09.a ----
 	checkVerifiedStateOnly(p, r, ds, "C16.o", "deadline", p.FuncsIn("strategies/builderbid/deadline"), "a bid that failed (or skipped) verification — for instance a zero-value bid — is remembered as the relay's first bid, and the report of the relay's bid range divides by its value: division by zero in the relay's goroutine")
+
+	// ---- (p) observation: shadowed non-error variables module-wide (reported as a table, decided in C05/C06) ----
+	{
+		var rows []string
+		for _, sh := range p.ShadowedResults() {
+			if !sh.IsError {
+				rows = append(rows, sh.Pkg+"."+sh.Func+": "+sh.Name+" @"+p.Pos(sh.Inner))
+			}
+		}
+		r.Tables["shadowed-non-error-variables"] = rows
+	}
+
+	// ---- (q) a position taken from one byte/bit collection is applied to another only behind a length test: bit lists
+	// of attestations for one committee can differ in length (data from a beacon node), so `dst[i]` with i ranging over
+	// `src` needs `i < len(dst)` ----
+	nForeign := 0
+	isBytes := func(t types.Type) bool {
+		sl, ok := t.Underlying().(*types.Slice)
+		if !ok {
+			return false
+		}
+		b, ok := sl.Elem().Underlying().(*types.Basic)
+		return ok && b.Kind() == types.Uint8
+	}
+	for _, f := range p.SrcFuncs() {
+		core.EachInstr(f, func(in ssa.Instruction) {
+			ia, ok := in.(*ssa.IndexAddr)
+			if !ok || !isBytes(ia.X.Type()) {
+				return
+			}
+			coll, ok := core.RangeIndex(ia.Index)
+			if !ok || !isBytes(coll.Type()) {
+				return
+			}
+			if coll == ia.X || sameExpr(coll, ia.X, 0) {
+				return
+			}
+			nForeign++
+			idxS, collS := ds.D(ia.Index).String(), ds.D(ia.X).String()
+			w := core.Unguarded(ds, f, nil, func(x ssa.Instruction) bool { return x == in }, func(c core.Cond) int {
+				if c.Op == "" {
+					return -1
+				}
+				for _, side := range [][2]*core.VD{{c.X, c.Y}, {c.Y, c.X}} {
+					if side[0].String() != idxS || side[1].Kind != "len" || side[1].Args[0].String() != collS {
+						continue
+					}
+					for e := 0; e < 2; e++ {
+						rel := c.RelOnEdge(e)
+						if side[0] == c.Y {
+							rel = core.FlipRel(rel)
+						}
+						if rel == "<" {
+							return e
+						}
+					}
+				}
+				return -1
+			})
+			r.Check(w == nil, "C16.q", fmt.Sprintf("%s|foreign-byte-index#%d", core.FnKey(f), nForeign), p.Pos(ia.Pos()), "the position is tested against the length of the collection it is applied to",
+				"bytes of "+collS+" are addressed with a position that ranges over "+ds.D(coll).String()+" without `i < len(...)`: when the second collection is longer (bit lists of different lengths for one committee) this is an index out of range panic", p.WitnessText(w)...)
+		})
+	}
+	if nForeign == 0 {
+		r.Hold("C16.q", "no-foreign-byte-index", "", "no byte collection is addressed with a position that ranges over another one")
+	}
 
 	// ---- (m) a helper of the program that can return nil without an error obliges its callers to test the result ----
 	nM := 0
